@@ -92,6 +92,25 @@ CLAIMS["C10"] = (
     "DESIGN.md section 5 C10",
 )
 
+CLAIMS["C11"] = (
+    "may/must dataflow for send-then-register atomicity; disjunctive path analysis of release on every exit; guard truth tables of the collector and the timeout callback",
+    "Decides statically: no suspension point between a send and the completion of the handler and waiter registrations (R1); on every exit of "
+    "the request function the same (callback, types) is unregistered and the same future discarded, removal idempotent (R2); the collector "
+    "appends iff pending and accepted and resolves iff pending and stop, with future/list/predicates bound to the right slots and the list "
+    "returned (R3); the timeout callback acts only on a pending future (R4). Local preconditions of the property; exact completion instants "
+    "and non-interference over all interleavings as behaviour are not decided.",
+    "DESIGN.md section 5 C11",
+)
+CLAIMS["C12"] = (
+    "CFG walks of the dispatcher with the wire type evaluated concretely at every boundary point (finite partition by the compared constants); effect-freeness of the unknown-type path; handler/response table extraction",
+    "Decides statically: delivery iterates a fresh copy of the handler set of the parsed message's class and calls each element once with that "
+    "message (R1); for every representative type number the registry index is never negative and undefined ids end on the unknown-type path "
+    "(R2), on which only logging executes (R3); other lookup/parse failures are caught, reported as ProtocolAPIError through the fatal path and "
+    "never delivered (R4); the three peer requests have handlers that send the same-stem response, disconnect marks-replies-closes, and "
+    "registration precedes the hello (R5). Payload-value behaviour of protobuf parsing is not decided.",
+    "DESIGN.md section 5 C12",
+)
+
 UNDER_CONSTRUCTION = "rule set not built yet in this round (see DESIGN.md section 5 for the planned static rules)"
 
 NOT_APPLICABLE = {}
